@@ -221,11 +221,12 @@ int toInt(const std::string& s, char scientificNotation)
   if (!isDecimalInteger(s, scientificNotation))
     throw Exception("TextTools::toInt(). Invalid number specification: " + s);
   std::size_t sciPos = s.find(scientificNotation);
-  if (sciPos == std::string::npos)
-    return fromString<int>(s);
   // Scientific notation: the stream conversion stops at the exponent character, so apply the exponent here.
-  long long value = fromString<long long>(s.substr(0, sciPos));
-  int exponent = fromString<int>(s.substr(sciPos + 1));
+  // (A stream conversion that does not fit its type stops at the type's limit: convert to a wider type and test the range.)
+  long long value = fromString<long long>(sciPos == std::string::npos ? s : s.substr(0, sciPos));
+  int exponent = (sciPos == std::string::npos) ? 0 : fromString<int>(s.substr(sciPos + 1));
+  if (value > std::numeric_limits<int>::max() || value < std::numeric_limits<int>::min())
+    throw Exception("TextTools::toInt(). Number out of range: " + s);
   for (int k = 0; k < exponent && value != 0; ++k)
   {
     value *= 10;
